@@ -5,6 +5,8 @@ type nat =
 | O
 | S of nat
 
+val option_map : ('a1 -> 'a2) -> 'a1 option -> 'a2 option
+
 val fst : ('a1 * 'a2) -> 'a1
 
 val snd : ('a1 * 'a2) -> 'a2
@@ -35,6 +37,12 @@ module Nat :
   val leb : nat -> nat -> bool
 
   val ltb : nat -> nat -> bool
+
+  val max : nat -> nat -> nat
+
+  val even : nat -> bool
+
+  val odd : nat -> bool
  end
 
 val tl : 'a1 list -> 'a1 list
@@ -55,6 +63,8 @@ val flat_map : ('a1 -> 'a2 list) -> 'a1 list -> 'a2 list
 
 val fold_left : ('a1 -> 'a2 -> 'a1) -> 'a2 list -> 'a1 -> 'a1
 
+val fold_right : ('a2 -> 'a1 -> 'a1) -> 'a1 -> 'a2 list -> 'a1
+
 val existsb : ('a1 -> bool) -> 'a1 list -> bool
 
 val forallb : ('a1 -> bool) -> 'a1 list -> bool
@@ -68,6 +78,8 @@ val firstn : nat -> 'a1 list -> 'a1 list
 val skipn : nat -> 'a1 list -> 'a1 list
 
 val seq : nat -> nat -> nat list
+
+val repeat : 'a1 -> nat -> 'a1 list
 
 type positive =
 | XI of positive
@@ -524,6 +536,10 @@ val conditionalDirectiveKind_is_if : conditionalDirectiveKind -> bool
 
 val conditionalDirectiveKind_is_else : conditionalDirectiveKind -> bool
 
+val rawTokenType_is_comment_or_directive : rawTokenType -> bool
+
+val tokenType_is_comment_or_directive : tokenType -> bool
+
 val tt_of_raw : rawTokenType -> tokenType
 
 type token = { t_ws : bytes; t_content : bytes; t_ty : tokenType }
@@ -882,6 +898,275 @@ val parents_ok_from : lline list -> nat -> lline list -> bool
 val parents_ok : lline list -> bool
 
 val eof_line_ok : tokenType list -> lline list -> bool
+
+val kEYWORDS_gen : (n list * rawTokenType) list
+
+val kEYWORD_ASSO_VALUES_gen : n list
+
+val find_first : (byte -> bool) -> bytes -> nat option
+
+val find_sub : bytes -> bytes -> nat option
+
+val next_is : byte -> bytes -> bool
+
+val count_ws : bytes -> nat
+
+val all_ws : bytes -> bool
+
+val trimmed_len : bytes -> nat
+
+val is_ident_ascii : byte -> bool
+
+val is_dec : byte -> bool
+
+val is_hex : byte -> bool
+
+val is_bin : byte -> bool
+
+val count_decimal : bytes -> nat
+
+val count_hex : bytes -> nat
+
+val count_binary : bytes -> nat
+
+val count_full_decimal : bytes -> nat
+
+val kEYWORDS_table : (bytes * rawTokenType) list
+
+val eq_ignore_case : bytes -> bytes -> bool
+
+val keyword_lookup : (bytes * rawTokenType) list -> bytes -> rawTokenType
+
+val get_word_token_type : bytes -> rawTokenType
+
+val kEYWORD_ASSO_VALUES : n list
+
+val asso : byte -> n
+
+val hash_keyword : bytes -> n
+
+val set_nth : nat -> 'a1 -> 'a1 list -> 'a1 list
+
+val make_keyword_lookup_table :
+  (bytes * rawTokenType) list -> (bytes * rawTokenType) option list ->
+  (bytes * rawTokenType) option list option
+
+val kEYWORD_LOOKUP_TABLE : (bytes * rawTokenType) option list option
+
+val mAX_WORD_LENGTH : nat
+
+val get_word_token_type_hash : bytes -> rawTokenType option
+
+val is_u3000_at : bytes -> bool
+
+val ident_end_generic : bytes -> nat
+
+val to_i8 : byte -> z
+
+val range_mask : byte -> byte -> byte -> bool
+
+val ident_mask_bit : byte -> bool
+
+val any_non_ascii : bytes -> bool
+
+val trailing_ones : bool list -> nat
+
+val avx2_loop : nat -> bytes -> nat
+
+val ident_end_avx2 : bytes -> nat
+
+val find_identifier_end : bytes -> nat
+
+val unicode_identifier : bytes -> nat
+
+val is_asm_ident : byte -> bool
+
+val asm_label : bytes -> nat
+
+val dec_number_literal : bytes -> nat
+
+val asm_number_literal : byte -> bytes -> nat * rawTokenType
+
+type tl_state =
+| TL_E
+| TL_H
+| TL_D
+| TL_X0
+| TL_X
+| TL_B0
+| TL_B
+| TL_S
+
+type tl_act =
+| TGo of tl_state
+| TStop of textLiteralKind
+
+val tl_step_E : byte -> tl_act
+
+val tl_step : tl_state -> byte -> tl_act
+
+val tl_end : tl_state -> textLiteralKind
+
+val tl_run : tl_state -> bytes -> nat * textLiteralKind
+
+val text_literal : byte -> bytes -> nat * rawTokenType
+
+val asm_text_literal : bytes -> nat * rawTokenType
+
+type blockCommentKind =
+| BCK_ParenStar
+| BCK_Brace
+
+val is_paren_star : blockCommentKind -> bool
+
+val find_block_comment_end : blockCommentKind -> bytes -> nat option
+
+val block_comment_kind : bool -> bool -> commentKind
+
+val block_comment : blockCommentKind -> bool -> bytes -> nat * rawTokenType
+
+val is_eol : byte -> bool
+
+val line_comment_len : bytes -> nat
+
+val line_comment : bool -> bytes -> nat * rawTokenType
+
+val conditional_directive_kind : bytes -> conditionalDirectiveKind option
+
+val directive_token_type : conditionalDirectiveKind option -> rawTokenType
+
+val cdk_has_expr : conditionalDirectiveKind option -> bool
+
+type dres =
+| DEnd of nat
+| DUnterminated
+| DFuel
+
+val dshift : nat -> dres -> dres
+
+val dres_of_option : nat option -> dres
+
+val parse_directive_end :
+  (blockCommentKind -> bytes -> dres) -> blockCommentKind -> bytes -> dres
+
+val find_directive_expr_end : nat -> blockCommentKind -> bytes -> dres
+
+type tres =
+| TOk of nat * rawTokenType
+| TFuel
+
+val tok : (nat * rawTokenType) -> tres
+
+val tshift : nat -> tres -> tres
+
+val compiler_directive : blockCommentKind -> bytes -> tres
+
+val compiler_directive_or_comment : blockCommentKind -> bool -> bytes -> tres
+
+val ampersand : bytes -> nat * rawTokenType
+
+type lstate = { ls_first : bool; ls_asm : bool; ls_prev : rawTokenType option }
+
+val prev_is_dot : lstate -> bool
+
+val is_kw_asm : rawTokenType -> bool
+
+val identifier_or_keyword : lstate -> byte -> bytes -> nat * rawTokenType
+
+val asm_identifier : byte -> bytes -> (nat * rawTokenType) * bool
+
+val op : nat -> operatorKind -> tres
+
+val lex_common : lstate -> bool -> byte -> bytes -> tres
+
+val is_aAeE : byte -> bool
+
+val lex_token :
+  lstate -> bool -> byte -> bytes -> ((nat * rawTokenType) * bool) option
+
+val init_state : lstate
+
+val lex_loop :
+  nat -> lstate -> bytes -> ((nat * nat) * rawTokenType) list option
+
+val lex : bytes -> ((nat * nat) * rawTokenType) list option
+
+val in_range : byte -> byte -> byte -> bool
+
+val valid_utf8 : bytes -> bool
+
+type action =
+| Keep
+| SetTo of n
+| Min1
+
+val apply_action : action -> n -> n
+
+val spaces_before : tokenType option -> n -> action
+
+val spaces_after : tokenType option -> n -> action
+
+val one_space_either_side :
+  tokenType option -> tokenType option -> action * action
+
+val one_space_before : tokenType option -> action * action
+
+val max_one_either_side : tokenType option -> action * action
+
+val binary_op_spacing : action * action
+
+val space_operator :
+  operatorKind -> tokenType option -> tokenType option -> tokenType option ->
+  action * action
+
+val rule :
+  tokenType option -> tokenType -> tokenType option -> tokenType option ->
+  action * action
+
+val set_sp : fmt -> n -> fmt
+
+val ty_of : ftoken -> tokenType
+
+val head_ty : ftoken list -> tokenType option
+
+val next_prev_real : tokenType option -> tokenType -> tokenType option
+
+val spacing_go :
+  tokenType option -> tokenType option -> action -> ftoken list -> ftoken list
+
+val zero_first : ftoken list -> ftoken list
+
+val token_spacing : ftoken list -> ftoken list
+
+val after_of : tokenType -> tokenType -> tokenType option -> action
+
+val before_of : tokenType -> tokenType -> tokenType option -> action
+
+val gap_fn : tokenType -> tokenType -> tokenType option -> n -> n
+
+val keeps_orig : tokenType -> tokenType -> tokenType option -> bool
+
+val reads_orig : tokenType -> tokenType -> tokenType option -> bool
+
+val starts_wordish : tokenType -> bool
+
+val glue_safe : tokenType -> tokenType -> bool
+
+val u16_sat : n -> n
+
+val count_lf0 : bytes -> n
+
+val take_until_lf : bytes -> bytes
+
+val after_last_lf : bytes -> bytes
+
+val drop_trailing_cr_rev : bytes -> bytes
+
+val trim_end_cr : bytes -> bytes
+
+val ws_prefix_len : bytes -> nat
+
+val fmt_of_ws : bytes -> bool -> fmt
 
 module MLStringJoin :
  sig
